@@ -1,6 +1,6 @@
 """C08 -- malformed or hostile input cannot hang, crash or corrupt the simulator."""
 from vrt import glue, sim, ref_cip as ref
-from vrt.ob import define
+from vrt.ob import define, concretize
 import cpppo
 from cpppo.server.enip import parser, device, logix, ucmm
 
@@ -61,7 +61,7 @@ for name in MACH:
     for n, tier in ((3, 'quick'), (5, 'thorough')):
         bs = ['b%d' % i for i in range(n)]
         define(globals(), 'C08', 'parse_any_%s_%d' % (name, n), ['n'] + bs,
-               "return hostile(%r, [%s][:n] if n < %d else [%s])" % (name, ", ".join(bs), n, ", ".join(bs)),
+               "return hostile(%r, [%s][:concretize(n, %d)])" % (name, ", ".join(bs), n + 1),
                ['0 <= n <= %d' % n, " and ".join('0 <= %s <= 255' % b for b in bs)],
                tier=tier if name not in ('IFACEADDRS', 'typed_data_STRUCT', 'EPATH_single', 'route_path') or n > 3 else 'thorough',
                timeout=2400, path_timeout=120, drives=AUT + ['cpppo.server.enip.parser.%s' % name],
@@ -115,7 +115,7 @@ def attack(frame, may_write=None):
 
 
 def do_envelope(command, n, bs):
-    payload = bs[:n] if n < len(bs) else bs
+    payload = bs[:concretize(n, len(bs) + 1)]
     return attack(ref.encap(command, 5, 0, [4] * 8, 0, payload))
 
 
@@ -132,7 +132,7 @@ for command, nm in ((0x6f, 'SendRRData'), (0x70, 'SendUnitData'), (0x65, 'Regist
 
 def do_cip_payload(n, bs):
     """well-formed encapsulation + CPF + Unconnected Send around EVERY embedded request of 0..n bytes"""
-    req = bs[:n] if n < len(bs) else bs
+    req = bs[:concretize(n, len(bs) + 1)]
     return attack(ref.encap(0x6f, 5, 0, [4] * 8, 0, ref.send_rr_data([(0, []), (0xb2, ref.unconnected_send(req, [{'port': 1, 'link': 0}]))])))
 
 
@@ -175,12 +175,12 @@ def do_mutate(name, pos, b):
     frame, may_write, reqlen = FRAMES[name]
     frame = list(frame)
     if reqlen is None:
-        pos = pos % len(frame)
+        pos = concretize(pos, len(frame))
     else:
         # positions outside the embedded write request: [0, start) and [start+reqlen, len)
         start = 24 + 6 + 2 + 4 + 4 + 1 + 5 + 2 + 2           # encap + ifc/timeout + count + null item + item hdr + 0x52 + path + prio/ticks + size
         outside = len(frame) - reqlen
-        pos = pos % outside
+        pos = concretize(pos, outside)
         if pos >= start:
             pos += reqlen
     frame[pos] = b
@@ -202,6 +202,7 @@ def do_write_fields(frag, idx, elements, offset, nvals, v):
     """a Write Tag [Fragmented] whose element count, byte offset and number of carried values are arbitrary (mutually inconsistent)"""
     a0 = [11, 12, 13, 14]
     segs = [{'symbolic': 'A'}, {'element': idx}]
+    nvals = concretize(nvals, 7)
     vals = [v, v + 1, v + 2, v + 3, v + 4, v + 5][:nvals]
     if frag:
         req = ref.write_frag(segs, 0xc3, vals, elements, 2 * offset)
